@@ -662,4 +662,21 @@ def rotation_exact(repo: Repo, prop: str = PROP, rule: str = "C17.ROTATION-EXACT
 rotation_exact.rule_id = "C17.ROTATION-EXACT"
 
 
-RULES = [purity, position_writers, link_algebra, affine_kinds, mirror_matrix, trig_domain, params_used, owns_geometry, angle_dimension, closest_search, float_stores, who_writes_points, symmetry_exact, angle_between_exact, match_tolerance, links_accumulate, radial_exact, no_alias_snapshot, rotation_exact]
+def params_solved(repo: Repo, prop: str = PROP, rule: str = "C17.PARAMS-SOLVED") -> RuleRun:
+    """'A freshly created clamp reports the position it was created at (its closest point on the constraint if that position is off
+    it)': the parameters of a new clamp are the SOLUTION of the closest-point problem; a hint (initial_params) is where the search
+    starts, not its answer. On every path through ClampBase.get_params the value returned comes out of the minimiser."""
+    from ..cfg import CFG
+
+    r = RuleRun(prop, rule, floor=1, what="every return of ClampBase.get_params passes through the closest-point minimisation (a hint is only a starting value)")
+    fn = repo.func("optimize.clamps.clamp.ClampBase.get_params")
+    g = CFG(fn.node)
+    ok, path = g.must_pass(g.entry, g.exit_return, lambda x: x.kind == "stmt" and any(isinstance(c, ast.Call) and (attr_chain(c.func) or "").split(".")[-1] in ("minimize", "minimize_scalar", "least_squares", "brentq", "fmin") for c in ast.walk(x.stmt)))
+    r.check(ok, fn, "every path to a result runs the minimiser", "ClampBase.get_params can return without minimising the distance to the vertex (an early return of the hint): a clamp created with approximate initial parameters sits at the hint, not at the position it was created at / the closest point of its constraint", fn.node, key="solved")
+    return r
+
+
+params_solved.rule_id = "C17.PARAMS-SOLVED"
+
+
+RULES = [purity, position_writers, link_algebra, affine_kinds, mirror_matrix, trig_domain, params_used, owns_geometry, angle_dimension, closest_search, float_stores, who_writes_points, symmetry_exact, angle_between_exact, match_tolerance, links_accumulate, radial_exact, no_alias_snapshot, rotation_exact, params_solved]
